@@ -34,3 +34,88 @@ Theorem C01_mode_choice_valid : forall rm x m l, Flocq.Calc.Bracket.inbetween_in
   rnd_of rm x = cond_Zopp (Rlt_bool x 0) (mode_choice rm (Rlt_bool x 0) m l).
 Proof. exact mode_choice_valid. Qed.
 Print Assumptions C01_mode_choice_valid.
+
+(* ---------------------------------------------------------------- context families *)
+From Flocq Require Import Core.FLX Core.FLT Core.FIX.
+From FpyV Require Import Num.Float Num.CtxDef Num.Ctx Num.CtxProofs.
+
+(* value, truthful inexact flag, no spurious overflow flag — every shape, every mode *)
+Theorem C01_rf_round_spec : forall x max_p min_n rm,
+  rf_wf x -> rc x <> 0 ->
+  match max_p with Some p => 1 <= p | None => True end ->
+  (max_p <> None \/ min_n <> None) ->
+  exists y fl,
+    rf_round x max_p min_n rm false = Ok (y, fl) /\
+    R2R y = round radix2 (fexp_of max_p min_n) (rnd_of rm) (R2R x) /\
+    rs y = rs x /\ rf_wf y /\
+    (f_inexact fl = false <-> R2R y = R2R x) /\ f_overflow fl = false.
+Proof. exact rf_round_spec. Qed.
+Print Assumptions C01_rf_round_spec.
+
+(* the result is a member of the format and one of the two neighbours *)
+Theorem C01_result_member_neighbour : forall x max_p min_n rm,
+  rf_wf x -> rc x <> 0 ->
+  match max_p with Some p => 1 <= p | None => True end ->
+  (max_p <> None \/ min_n <> None) ->
+  exists y fl, rf_round x max_p min_n rm false = Ok (y, fl) /\
+    generic_format radix2 (fexp_of max_p min_n) (R2R y) /\
+    (R2R y = round radix2 (fexp_of max_p min_n) Zfloor (R2R x) \/
+     R2R y = round radix2 (fexp_of max_p min_n) Zceil (R2R x)).
+Proof. exact result_member_neighbour. Qed.
+Print Assumptions C01_result_member_neighbour.
+
+(* a representable operand is returned unchanged and unflagged *)
+Theorem C01_representable_unchanged : forall x max_p min_n rm,
+  rf_wf x -> rc x <> 0 ->
+  match max_p with Some p => 1 <= p | None => True end ->
+  (max_p <> None \/ min_n <> None) ->
+  generic_format radix2 (fexp_of max_p min_n) (R2R x) ->
+  exists y fl, rf_round x max_p min_n rm false = Ok (y, fl) /\ R2R y = R2R x /\ f_inexact fl = false.
+Proof. exact representable_unchanged. Qed.
+Print Assumptions C01_representable_unchanged.
+
+Theorem C01_mpfloat_round_spec : forall p rm sp x rb,
+  1 <= p -> rf_wf x -> rc x <> 0 ->
+  exists y f,
+    round_mpfloat p rm (Some 0) sp (FFin x) None rb = Ok (FFin y, f) /\
+    R2R y = round radix2 (FLX_exp p) (rnd_of rm) (R2R x) /\
+    (f_inexact f = false <-> R2R y = R2R x) /\ f_overflow f = false.
+Proof. exact mpfloat_round_spec. Qed.
+Print Assumptions C01_mpfloat_round_spec.
+
+Theorem C01_mpsfloat_round_spec : forall p emin rm sp x rb,
+  1 <= p -> rf_wf x -> rc x <> 0 ->
+  exists y f,
+    round_mpsfloat p emin rm (Some 0) sp (FFin x) None rb = Ok (FFin y, f) /\
+    R2R y = round radix2 (FLT_exp (emin - p + 1) p) (rnd_of rm) (R2R x) /\
+    (f_inexact f = false <-> R2R y = R2R x) /\ f_overflow f = false.
+Proof. exact mpsfloat_round_spec. Qed.
+Print Assumptions C01_mpsfloat_round_spec.
+
+(* bounded floats: the overflow rule applies exactly when the rounded value leaves the range *)
+Theorem C01_mpbfloat_round_spec : forall p emin pos_max neg_max rm ov sp x rb,
+  1 <= p -> rf_wf x -> rc x <> 0 ->
+  rf_wf pos_max -> rf_wf neg_max -> rs pos_max = false -> (rs neg_max = true \/ rc neg_max = 0) ->
+  let r := round radix2 (FLT_exp (emin - p + 1) p) (rnd_of rm) (R2R x) in
+  (in_range pos_max neg_max r ->
+     exists y f, round_mpbfloat p emin pos_max neg_max rm ov (Some 0) sp (FFin x) None rb = Ok (FFin y, f) /\
+       R2R y = r /\ (f_inexact f = false <-> R2R y = R2R x) /\ f_overflow f = false) /\
+  (~ in_range pos_max neg_max r ->
+     round_mpbfloat p emin pos_max neg_max rm ov (Some 0) sp (FFin x) None rb =
+     overflow_result pos_max neg_max rm ov sp (rs x) true).
+Proof. exact mpbfloat_round_spec. Qed.
+Print Assumptions C01_mpbfloat_round_spec.
+
+Theorem C01_overflow_result_flags : forall pos_max neg_max rm ov sp s b v f,
+  overflow_result pos_max neg_max rm ov sp s b = Ok (v, f) -> f_overflow f = true /\ f_inexact f = true.
+Proof. exact overflow_result_flags. Qed.
+Print Assumptions C01_overflow_result_flags.
+
+Theorem C01_mpfixed_round_spec : forall nmin rm sp nz x rb,
+  rf_wf x -> rc x <> 0 ->
+  exists y f,
+    round_mpfixed nmin rm (Some 0) sp nz (FFin x) None rb = Ok (FFin y, f) /\
+    R2R y = round radix2 (FIX_exp (nmin + 1)) (rnd_of rm) (R2R x) /\
+    (f_inexact f = false <-> R2R y = R2R x) /\ f_overflow f = false.
+Proof. exact mpfixed_round_spec. Qed.
+Print Assumptions C01_mpfixed_round_spec.
